@@ -2,20 +2,241 @@ package vc
 
 import (
 	"go/ast"
+	"go/types"
+	"strings"
 )
 
-// Type-invariant hooks.  (Filled in by typeinv2.go once invariants are declared; these are the neutral defaults.)
+// Type invariants (`typeinv v *T : P(v)`): a data-structure invariant of struct T.
+//
+// Methodology (sound for sequential code, see DESIGN.md §2.2 "Global value invariant"):
+//   * every T object satisfies P at function boundaries (calls, returns) and loop heads, except objects this
+//     frame has written since the last boundary ("dirty") and elements of []T slices ("raw": the VM stack,
+//     whose slots are governed by an explicit invariant of the function that owns them);
+//   * P(a) is ASSUMED when a field of the object at address a is read (unless a is dirty or the access is raw);
+//   * a write to a field of T makes the object dirty; at the next boundary P is ASSERTED for every dirty object;
+//   * a raw pointer (address of a []T element) that escapes — passed to a call, returned, stored — must satisfy P
+//     at that point (asserted), because the receiver will assume it.
 
-func (fx *fctx) applyTypeInv(st *State, v *Value, n ast.Node) {}
+type typeInvInfo struct {
+	Struct string
+	Clause *Clause
+	Var    string
+	Ptr    types.Type
+}
 
-func (fx *fctx) noteWrite(st *State, key string, addr *Term) {}
+func (e *Engine) setupTypeInvs() {
+	e.typeInvs = map[string]*typeInvInfo{}
+	for _, ti := range e.P.CF.TypeInvs {
+		if ti.Clause.Fn == nil {
+			continue
+		}
+		ps := ti.Clause.Fn.Type.Params.List
+		if len(ps) != 1 {
+			continue
+		}
+		pt := e.P.Info.TypeOf(ps[0].Type)
+		p, ok := pt.Underlying().(*types.Pointer)
+		if !ok {
+			continue
+		}
+		sn := e.structName(p.Elem())
+		e.typeInvs[sn] = &typeInvInfo{Struct: sn, Clause: ti.Clause, Var: ti.Var, Ptr: pt}
+	}
+}
 
-func (fx *fctx) boundaryCheck(st *State, n ast.Node, tag string) {}
+func (e *Engine) typeInvForKey(key string) *typeInvInfo {
+	if len(e.typeInvs) == 0 || key == "" {
+		return nil
+	}
+	if strings.HasPrefix(key, "box.") {
+		return nil
+	}
+	i := strings.IndexByte(key, '.')
+	if i <= 0 {
+		return nil
+	}
+	return e.typeInvs[key[:i]]
+}
+
+// typeInvForType: t is T or *T with a declared invariant.
+func (e *Engine) typeInvForType(t types.Type) *typeInvInfo {
+	if len(e.typeInvs) == 0 || t == nil {
+		return nil
+	}
+	if p, ok := t.Underlying().(*types.Pointer); ok {
+		t = p.Elem()
+	}
+	if _, ok := t.Underlying().(*types.Struct); !ok {
+		return nil
+	}
+	if e.isOpaqueStruct(t) {
+		return nil
+	}
+	return e.typeInvs[e.structName(t)]
+}
+
+func (fx *fctx) invTerm(st *State, addr *Term, ti *typeInvInfo) *Term {
+	saved := fx.inTypeInv
+	fx.inTypeInv = true
+	defer func() { fx.inTypeInv = saved }()
+	return fx.evalClause(st, nil, ti.Clause, map[string]*Value{ti.Var: {T: ti.Ptr, Tm: addr}})
+}
+
+// onFieldRead is called by loadCell before a field of a struct with a type invariant is read.
+func (fx *fctx) onFieldRead(st *State, key string, addr *Term) {
+	if fx.inTypeInv || st.quiet {
+		return
+	}
+	if fx.rawAccess && fx.rawCond == nil {
+		return
+	}
+	ti := fx.e.typeInvForKey(key)
+	if ti == nil {
+		return
+	}
+	ts := fx.e.ts
+	for _, d := range st.dirty {
+		if d == addr {
+			return
+		}
+	}
+	tag := addr.id*7 + len(st.dirty)
+	_ = tag
+	inv := fx.invTerm(st, addr, ti)
+	var distinct []*Term
+	for _, d := range st.dirty {
+		distinct = append(distinct, ts.Ne(addr, d))
+	}
+	if fx.rawAccess && fx.rawCond != nil {
+		distinct = append(distinct, ts.Not(fx.rawCond))
+	}
+	g := ts.Implies(ts.And(distinct...), inv)
+	if st.known == nil {
+		st.known = map[int]bool{}
+	}
+	if st.known[g.id] {
+		return
+	}
+	st.known[g.id] = true
+	st.assume(g)
+}
+
+func (fx *fctx) noteWrite(st *State, key string, addr *Term) {
+	if fx.inTypeInv {
+		return
+	}
+	ti := fx.e.typeInvForKey(key)
+	if ti == nil {
+		return
+	}
+	if fx.rawAccess && fx.rawCond == nil {
+		return // raw slots are governed by explicit invariants
+	}
+	for _, d := range st.dirty {
+		if d == addr {
+			return
+		}
+	}
+	st.dirty = append(st.dirty, addr)
+	st.dirtyTI = append(st.dirtyTI, ti)
+	// facts assumed for other objects stay valid; facts about this object are re-established at the boundary
+}
+
+// boundaryCheck asserts the invariant of every object written since the last boundary.
+func (fx *fctx) boundaryCheck(st *State, n ast.Node, tag string) {
+	fx.boundaryCheckArgs(st, n, tag, nil, false)
+}
+
+// boundaryCheckArgs: objects that are boxed locals of this frame (address-taken local variables) are not visible
+// to anybody else: their invariant is required only when their address is handed to a call (passed lists the
+// addresses handed over); at returns and loop heads they are skipped.
+func (fx *fctx) boundaryCheckArgs(st *State, n ast.Node, tag string, passed []*Term, atCall bool) {
+	if st.dead || len(st.dirty) == 0 || fx.spec {
+		return
+	}
+	dirty := st.dirty
+	tis := st.dirtyTI
+	st.dirty = nil
+	st.dirtyTI = nil
+	for i, d := range dirty {
+		if fx.localAddr[d.id] {
+			handed := false
+			for _, p := range passed {
+				if p == d {
+					handed = true
+				}
+			}
+			if !handed {
+				if atCall {
+					// still dirty after the call
+					st.dirty = append(st.dirty, d)
+					st.dirtyTI = append(st.dirtyTI, tis[i])
+				}
+				continue
+			}
+		}
+		inv := fx.invTerm(st, d, tis[i])
+		fx.assert(st, "typeinv", tis[i].Struct+"@"+tag, inv, n, nil, "invariant of "+tis[i].Struct+" re-established for an object written in this frame")
+		st.assume(inv)
+	}
+}
 
 func (fx *fctx) boundaryAssume(st *State, n ast.Node) {}
 
-func (fx *fctx) beforeCall(st *State, recv *Value, args []*Value, n ast.Node) {}
+func (fx *fctx) applyTypeInv(st *State, v *Value, n ast.Node) {}
+
+// beforeCall: objects written must be well-formed again, and raw pointers handed to the callee must point to
+// well-formed objects.
+func (fx *fctx) beforeCall(st *State, recv *Value, args []*Value, n ast.Node) {
+	if fx.spec {
+		return
+	}
+	var passed []*Term
+	if recv != nil && recv.Tm != nil {
+		passed = append(passed, recv.Tm)
+	}
+	for _, a := range args {
+		if a != nil && a.Tm != nil {
+			passed = append(passed, a.Tm)
+		}
+	}
+	fx.boundaryCheckArgs(st, n, "call", passed, true)
+	check := func(v *Value, what string) {
+		if v == nil || !v.Raw || v.Tm == nil {
+			return
+		}
+		ti := fx.e.typeInvForType(v.T)
+		if ti == nil {
+			return
+		}
+		ts := fx.e.ts
+		g := ts.Or(ts.Eq(v.Tm, ts.Int(0)), fx.invTerm(st, v.Tm, ti))
+		if v.RawC != nil {
+			g = ts.Implies(v.RawC, g)
+		}
+		fx.assert(st, "typeinv-escape", ti.Struct+"@"+what, g, n, nil, "pointer into a raw slice passed to a call points to a well-formed "+ti.Struct)
+		st.assume(g)
+	}
+	check(recv, "recv")
+	for _, a := range args {
+		check(a, "arg")
+	}
+}
 
 func (fx *fctx) afterCall(st *State, n ast.Node) {}
 
-func (fx *fctx) onEscape(st *State, v *Value, n ast.Node, tag string) {}
+func (fx *fctx) onEscape(st *State, v *Value, n ast.Node, tag string) {
+	if v == nil || !v.Raw || v.Tm == nil || fx.spec {
+		return
+	}
+	ti := fx.e.typeInvForType(v.T)
+	if ti == nil {
+		return
+	}
+	ts := fx.e.ts
+	g := ts.Or(ts.Eq(v.Tm, ts.Int(0)), fx.invTerm(st, v.Tm, ti))
+	if v.RawC != nil {
+		g = ts.Implies(v.RawC, g)
+	}
+	fx.assert(st, "typeinv-escape", ti.Struct+"@"+tag, g, n, nil, "pointer into a raw slice that escapes points to a well-formed "+ti.Struct)
+}
